@@ -34,5 +34,6 @@ int vh_ops_stream(int argc, char **argv);
 int vh_ops_reader(int argc, char **argv);
 int vh_ops_tree(int argc, char **argv);
 int vh_ops_tool(int argc, char **argv);
+int vh_ops_danger(int argc, char **argv);
 
 #endif
